@@ -27,7 +27,7 @@ import (
 
 // Case is one call, one format call or one read.
 type Case struct {
-	K    string   `json:"k"`              // fn | fmt | rd | skip | probe
+	K    string   `json:"k"`              // fn | fmt | rd | src | skip | probe
 	Fn   string   `json:"fn,omitempty"`   // pkg:name
 	Raw  bool     `json:"raw,omitempty"`  // unevaluated positions get the bare object
 	Args []string `json:"args,omitempty"` // pool names; ":xyz" = a literal keyword
@@ -36,6 +36,11 @@ type Case struct {
 	Via  string   `json:"via,omitempty"`  // reader delivery: bytes | stream | rfs
 	Why  string   `json:"why,omitempty"`  // skip: the finding the construct belongs to
 	Sub  string   `json:"sub,omitempty"`  // probe: kind of the inner case (fn | fmt)
+	// Twice: the same form object is evaluated a second time (a call inside a
+	// loop body): destructive functions then meet the literal they changed,
+	// and the evaluator meets the arguments it rewrote on the first pass.
+	Twice bool   `json:"twice,omitempty"`
+	Text  string `json:"text,omitempty"` // src: a program text that is read and evaluated
 }
 
 const (
@@ -91,7 +96,27 @@ func getLayout(tier string) []block {
 	fn3 := block{name: "fn3-smallpool", n: len(t3) * S * S * S, gen: func(_ *rand.Rand, k int) Case {
 		return mkFn(&targets[t3[k/(S*S*S)]], smallPool[(k/(S*S))%S], smallPool[(k/S)%S], smallPool[k%S])
 	}}
+	fn1twice := block{name: "fn1-twice", n: nT * P, gen: func(_ *rand.Rand, k int) Case {
+		c := mkFn(&targets[k/P], pool[k%P].Name)
+		if c.K == "fn" {
+			c.Twice = true
+		}
+		return c
+	}}
 	kw := kwCases()
+	// malformed keyword parts: value missing, key duplicated, non-keyword in key position
+	kwBad := block{name: "fn-keywords-malformed", n: len(kw) * len(kwShapes), gen: func(_ *rand.Rand, k int) Case {
+		kc := kw[k/len(kwShapes)]
+		args := append([]string{}, kc.req...)
+		for _, a := range kwShapes[k%len(kwShapes)] {
+			if a == ":K" {
+				a = ":" + kc.key
+			}
+			args = append(args, a)
+		}
+		return mkFn(&targets[kc.t], args...)
+	}}
+	srcDet := block{name: "src-det", n: len(srcTexts()), gen: func(_ *rand.Rand, k int) Case { return Case{K: "src", Text: srcTexts()[k]} }}
 	fnkw := block{name: "fn-keywords", n: len(kw) * P, gen: func(_ *rand.Rand, k int) Case {
 		kc := kw[k/P]
 		args := append(append([]string{}, kc.req...), ":"+kc.key, pool[k%P].Name)
@@ -111,12 +136,12 @@ func getLayout(tier string) []block {
 	var l []block
 	switch tier {
 	case "thorough":
-		l = []block{fn0, fn1, fn2, fn3, fnkw, fnN(200000), fmtDet, fmtSeed(200000), rdDet, rdSeed(200000)}
+		l = []block{fn0, fn1, fn1twice, fn2, fn3, fnkw, kwBad, fnN(200000), srcDet, fmtDet, fmtSeed(200000), rdDet, rdSeed(200000)}
 	case "seeded": // development aid: the seeded blocks of the thorough tier only
 		l = []block{fnN(200000), fmtSeed(200000), rdSeed(200000)}
 	default:
-		l = []block{fn0, fn1, fn2q, sampled(fn2, 30000), sampled(fn3, 15000), sampled(fnkw, 10000), fnN(15000),
-			fmtDet, fmtSeed(5000), rdDet, rdSeed(10000)}
+		l = []block{fn0, fn1, sampled(fn1twice, 15000), fn2q, sampled(fn2, 30000), sampled(fn3, 15000), sampled(fnkw, 10000), sampled(kwBad, 10000), fnN(15000),
+			srcDet, fmtDet, fmtSeed(5000), rdDet, rdSeed(10000)}
 	}
 	layouts[tier] = l
 	return l
@@ -137,6 +162,25 @@ func targets3() []int {
 		}
 	}
 	return t3cache
+}
+
+// kwShapes: what follows the required arguments in the malformed-keyword
+// block; ":K" stands for the documented keyword.
+var kwShapes = [][]string{
+	{":K"},                      // value missing
+	{":K", "nil", ":K"},         // value missing after a complete pair
+	{":K", "nil", ":K", "zero"}, // duplicated
+	{":K", "zero", ":K", "nil"},
+	{":K", "list3", ":K", "str"},
+	{"zero", "one"}, // non-keyword in key position
+	{"str", "one"},
+	{"list3", "one"},
+	{"nil", "one"},
+	{":K", "nil", "zero", "one"},
+	{":no-such-key", "one"}, // unknown keyword
+	{":K", ":K"},            // the keyword as its own value
+	{":K", "values0"},
+	{"unk-pkg-sym", "one"},
 }
 
 type kwCase struct {
@@ -236,6 +280,7 @@ var (
 	envSnapshot  []string
 	allocSample  = []metrics.Sample{{Name: "/gc/heap/allocs:bytes"}}
 	steps        int
+	budgetAt     int
 	helperFn     *slip.FuncInfo
 	stderrIsFile bool
 	exported     []*slip.FuncInfo // every FuncInfo that was exported at start
@@ -274,6 +319,7 @@ func workerInit() {
 	if msg := setupWorld(); msg != "" {
 		panic(msg)
 	}
+	cleanUser() // records the base world of cl-user
 	runtime.GC()
 	time.Sleep(10 * time.Millisecond)
 	baseGo = runtime.NumGoroutine()
@@ -334,10 +380,15 @@ func markContext(sig string) {
 
 func newScope() *slip.Scope {
 	scope := slip.NewScope()
-	steps = 0
+	steps, budgetAt = 0, stepBudget
+	budgetAt = stepBudget
 	scope.InterruptCheck = func() {
 		steps++
-		if stepBudget < steps {
+		if budgetAt < steps {
+			// Re-armed a little further on: building the condition for this
+			// panic evaluates forms too and must not meet the budget again,
+			// but a loop that swallows the condition is stopped once more.
+			budgetAt = steps + 20000
 			panic(budgetMsg)
 		}
 	}
@@ -476,6 +527,7 @@ func faultKind(msg string) string {
 		{"bytes.Buffer", "bytes-buffer"},
 		{"reflect:", "reflect"},
 		{"out of memory", "oom"},
+		{"makechan:", "makechan"},
 	} {
 		if strings.Contains(msg, p[0]) {
 			return p[1]
@@ -498,7 +550,7 @@ func classify(err *sl.Err) outcome {
 		return outcome{kind: "budget", err: err}
 	case err.Partial:
 		return outcome{kind: "condition", err: err}
-	case err.Class == "go-runtime-error" || sl.LooksInternal(err.Msg):
+	case err.Class == "go-runtime-error" || sl.LooksInternal(err.Msg) || strings.Contains(err.Msg, "makechan:") || strings.Contains(err.Msg, "makemap:"):
 		return outcome{kind: "fault", fault: faultKind(err.Msg), err: err}
 	case err.Internal:
 		// a bare Go panic value (string, error) reached the caller: not a
@@ -563,6 +615,9 @@ func buildArg(scope *slip.Scope, po *poolObj) (slip.Object, string) {
 	if po.Form {
 		return slip.ReadString(po.Src, scope)[0], ""
 	}
+	if po.Make != nil {
+		return po.Make(), ""
+	}
 	obj, err := sl.Eval(scope, po.Src)
 	if err != nil {
 		// a previous case damaged a helper: restore and retry once
@@ -617,16 +672,28 @@ func buildForm(scope *slip.Scope, c *Case) (form slip.List, emptyValues bool, he
 	return
 }
 
+// fnContext names a call for the signature of a worker death: the function,
+// the mode, and the argument classes that make a call hostile (huge counts,
+// closed streams, deep nesting ...); ordinary classes are written as _.
 func fnContext(c *Case) string {
 	ctx := "fn=" + sigName(c.Fn)
 	if c.Raw {
 		ctx += " raw"
 	}
-	if len(c.Args) <= 2 {
-		return ctx + " args=" + classesOf(c.Args)
+	if 2 < len(c.Args) {
+		return ctx + " args=3+"
 	}
-	return ctx + " args=3+"
+	cs := make([]string, len(c.Args))
+	for i, a := range c.Args {
+		cs[i] = "_"
+		if po := poolIndex[a]; po != nil && hostileClass[po.Class] {
+			cs[i] = po.Class
+		}
+	}
+	return ctx + " args=(" + strings.Join(cs, ",") + ")"
 }
+
+var hostileClass = map[string]bool{"big40": true, "hugefix": true, "closedstream": true, "closedchannel": true}
 
 func execFn(x *fw.Ctx, c *Case) {
 	pkgName, _, _ := strings.Cut(c.Fn, ":")
@@ -641,16 +708,26 @@ func execFn(x *fw.Ctx, c *Case) {
 		x.Fail("harness-pool", "%s", herr)
 		return
 	}
-	steps = 0
+	steps, budgetAt = 0, stepBudget
 	ctx := fnContext(c)
 	markContext(ctx)
 	a0 := allocBytes()
 	var res slip.Object
 	err := sl.Catch(func() { res = scope.Eval(form, 0) })
+	again := ""
+	if c.Twice {
+		x.Cover("mode:twice")
+		if o1 := classify(err); o1.kind == "value" || o1.kind == "condition" {
+			markContext(ctx + " again")
+			steps, budgetAt = 0, stepBudget
+			err = sl.Catch(func() { res = scope.Eval(form, 0) })
+			again = " again"
+		}
+	}
 	used := allocBytes() - a0
 	x.CoverN("eval-steps", steps)
 	oc := classify(err)
-	obs := map[string]any{"call": renderCall(c), "outcome": oc.kind}
+	obs := map[string]any{"call": renderCall(c) + again, "outcome": oc.kind}
 	x.Observe(obs)
 	switch oc.kind {
 	case "value":
@@ -668,7 +745,8 @@ func execFn(x *fw.Ctx, c *Case) {
 			x.Fail("fault=index[len0] evaluator arg=(values)", "%s => internal fault reported as %s: %s", renderCall(c), oc.err.Class, oc.err.Msg)
 			break
 		}
-		x.Fail(fnSig(c, "fault="+oc.fault), "%s => internal fault reported as %s: %s", renderCall(c), oc.err.Class, oc.err.Msg)
+		x.Fail(fnSig(c, "fault="+oc.fault)+again, "%s%s => internal fault reported as %s: %s", renderCall(c),
+			map[bool]string{true: " [the same form evaluated a second time]", false: ""}[again != ""], oc.err.Class, oc.err.Msg)
 	case "raw-panic":
 		x.Cover("outcome:raw-go-panic")
 		x.Fail(fnSig(c, "raw-go-panic"), "%s => a bare Go panic value (%s) instead of a condition: %s", renderCall(c), oc.err.GoType, oc.err.Msg)
@@ -708,6 +786,8 @@ func exec(x *fw.Ctx, c Case) {
 	switch c.K {
 	case "": // a null witness
 		x.Trivial()
+	case "src":
+		execSrc(x, &c)
 	case "probe":
 		execProbe(x, &c)
 	case "skip":
